@@ -405,7 +405,8 @@ private:
         // swap to the end of the aged list and update its time.
         if (e.m_keyed_position->second != last_aged_item)
         {
-            m_dynamic_age_list.splice(last_aged_item, m_dynamic_age_list, e.m_keyed_position->second);
+            // splice() inserts *before* the given position, the youngest end of the in-use items is m_open_list_end.
+            m_dynamic_age_list.splice(m_open_list_end, m_dynamic_age_list, e.m_keyed_position->second);
         }
         e.m_dynamic_age = now;
     }
